@@ -650,12 +650,21 @@ impl WithT for SndRun<'_> {
                     frame_seed = frame_seed.wrapping_add(41);
                     let frames: Vec<u8> = (0..flen).map(|k| (k as u8).wrapping_mul(7) ^ frame_seed).collect();
                     dev.with(|d| {
-                        d.h.lag = *lag as usize % 12;
+                        // up to 11 held before the device completes on arrival; a slow device
+                        // (lag >= 128) holds up to 40 and completes only every 1..4 turns, so the
+                        // queue really fills up
+                        d.h.lag = if *lag >= 128 { 12 + *lag as usize % 29 } else { *lag as usize % 12 };
+                        d.h.patience = if *lag >= 128 { 1 + (*lag as u32 / 16) % 4 } else { 0 };
+                        d.h.patience_left = d.h.patience;
                         d.h.hold_all = false;
                         d.h.max_outstanding = 0;
                     });
                     let tx0 = dev.with(|d| d.h.tx_log.len());
                     let r = g!(what, snd.pcm_xfer(s, &frames));
+                    dev.with(|d| {
+                        d.h.patience = 0;
+                        d.h.patience_left = 0;
+                    });
                     chk(&dev)?;
                     let _ = inj_before;
                     let (_, setup_failed) = scan_setup(ctl0, &dev, &mut set_up_done).map_err(|m| format!("{}: {}", what, m))?;
